@@ -237,6 +237,40 @@ fn check<C: Cm>(case: &Case) -> PResult {
         .class_if(matches!(case.a.repr, Repr::Truncated { .. } | Repr::Edited { .. } | Repr::RemovedPrefix { .. } | Repr::Refilled { .. } | Repr::TruncExtend { .. }), "edited_side"))
 }
 
+/// long operands that differ in exactly one symbol on or next to a power-of-two block boundary:
+/// unequal in every pairing, and unequal texts
+fn boundaries<C: Cm>(s: &SeqSpec) -> PResult {
+    let sy = Syms::<C>::new()?;
+    let n = C::ID.name();
+    let built = build(&sy, s)?;
+    let a: Seq<C> = built.slice().to_owned();
+    let codes = sy.m.codes();
+    let len = s.codes.len();
+    let mut tried = 0;
+    for p in gen::boundary_positions(len, sy.bits()) {
+        let old = s.codes[p];
+        let i = codes.iter().position(|c| *c == old).unwrap_or(0);
+        let new = codes[(i + 1) % codes.len()];
+        if new == old {
+            continue;
+        }
+        let b = gen::with_symbol(&a, p, sy.sym(new));
+        let what = format!("two {len}-symbol sequences that differ only at symbol {p}");
+        ensure!(!(a == b) && a != b && !(b == a), format!("boundary_seq_eq/{n}"), "Seq == Seq holds for {what}");
+        ensure!(!(built.slice() == &b[..]) && !(&b[..] == built.slice()), format!("boundary_slice_eq/{n}"), "SeqSlice == SeqSlice holds for {what}");
+        ensure!(!(a == &b[..]) && !(&b[..] == a), format!("boundary_mixed_eq/{n}"), "Seq == &SeqSlice holds for {what}");
+        tried += 1;
+    }
+    // and the unchanged copy is equal
+    let same = gen::with_symbol(&a, len / 2, sy.sym(s.codes[len / 2]));
+    ensure!(a == same && built.slice() == &same[..], format!("boundary_equal/{n}"), "a rebuilt copy of a {len}-symbol sequence is not equal to it");
+    Ok(Pass::new(tried > 0))
+}
+
+fn boundaries_dispatch(case: &Case) -> PResult {
+    with_codec!(case.codec, C, boundaries::<C>(&case.a))
+}
+
 pub fn dispatch(case: &Case) -> PResult {
     with_codec!(case.codec, C, check::<C>(case))
 }
@@ -426,6 +460,15 @@ pub fn run(ctx: &mut Ctx) {
             &lens,
             |n| (gen::seq_spec_n(id, n), any::<bool>(), any::<u8>(), any::<u8>()).prop_map(move |(a, from_end, off, sym)| Case { codec: id, b_repr: a.repr.clone(), a, rel: Rel::SubstEdge { from_end, off, sym } }),
             dispatch,
+        );
+        let mut big: Vec<usize> = lens.iter().copied().filter(|n| n * id.bits() >= 4096).collect();
+        big.sort();
+        let big: Vec<usize> = big.into_iter().rev().take(4).collect();
+        ctx.forall_lens(
+            &format!("pairs_long_boundaries/{}", id.name()),
+            &big,
+            |n| gen::seq_spec_n(id, n).prop_map(move |a| Case { codec: id, b_repr: Repr::Collect, a, rel: Rel::Identical }),
+            boundaries_dispatch,
         );
     }
     for id in ALL_CODECS {
